@@ -642,6 +642,7 @@ func prune(fn *ssa.Function) {
 	if len(fn.Blocks) == 0 {
 		return
 	}
+	foldConstIfs(fn)
 	reach := map[*ssa.BasicBlock]bool{}
 	var walk func(b *ssa.BasicBlock)
 	walk = func(b *ssa.BasicBlock) {
@@ -688,6 +689,51 @@ func prune(fn *ssa.Function) {
 		}
 	}
 	fn.Blocks = keep
+}
+
+// foldConstIfs turns `if true/false` (a boolean parameter that became a constant where the callee was expanded) into a
+// jump; the edge not taken disappears together with the phi operands that came along it.
+func foldConstIfs(fn *ssa.Function) {
+	for _, b := range fn.Blocks {
+		if len(b.Instrs) == 0 || len(b.Succs) != 2 {
+			continue
+		}
+		iff, ok := b.Instrs[len(b.Instrs)-1].(*ssa.If)
+		if !ok {
+			continue
+		}
+		c, ok := iff.Cond.(*ssa.Const)
+		if !ok || c.Value == nil || c.Value.Kind() != constant.Bool {
+			continue
+		}
+		taken, other := b.Succs[0], b.Succs[1]
+		if !constant.BoolVal(c.Value) {
+			taken, other = other, taken
+		}
+		if taken == other {
+			continue
+		}
+		// remove the edge b → other
+		for i, p := range other.Preds {
+			if p != b {
+				continue
+			}
+			other.Preds = append(other.Preds[:i:i], other.Preds[i+1:]...)
+			for _, in := range other.Instrs {
+				ph, ok := in.(*ssa.Phi)
+				if !ok {
+					break
+				}
+				ph.Edges = append(ph.Edges[:i:i], ph.Edges[i+1:]...)
+			}
+			break
+		}
+		j := &ssa.Jump{}
+		setUnexported(j, "block", b)
+		origOf[j] = iff
+		b.Instrs[len(b.Instrs)-1] = j
+		b.Succs = []*ssa.BasicBlock{taken}
+	}
 }
 
 // constVal evaluates v to a boolean/nil-ness constant under an assignment of the block's phis.
